@@ -89,6 +89,10 @@ func genCallProg(id int, seed int64) *Prog {
 	variadic := rng.Intn(3) == 0
 	var ptypes []string
 	for i := 0; i < np; i++ {
+		if i > 0 && rng.Intn(3) == 0 {
+			ptypes = append(ptypes, ptypes[i-1]) // neighbours of one type (grouped declarations)
+			continue
+		}
 		ptypes = append(ptypes, callParamTypes[rng.Intn(len(callParamTypes))])
 	}
 	var rtypes []string
@@ -121,6 +125,19 @@ func genCallProg(id int, seed int64) *Prog {
 		}
 		names = append(names, fmt.Sprintf("p%d", i))
 		sig = append(sig, fmt.Sprintf("p%d %s", i, t))
+	}
+	// consecutive parameters of one type are sometimes declared as a group (a, b T)
+	if rng.Intn(2) == 0 {
+		var grouped []string
+		for i := 0; i < len(ptypes); {
+			j := i
+			for j+1 < len(ptypes) && ptypes[j+1] == ptypes[i] {
+				j++
+			}
+			grouped = append(grouped, strings.Join(names[i:j+1], ", ")+" "+ptypes[i])
+			i = j + 1
+		}
+		sig = grouped
 	}
 	vt := ""
 	if variadic {
